@@ -5,13 +5,13 @@
 # the scratch worktree and its build output.
 set -u
 pid="$1"; first="$2"; count="${3:-3}"
-out="/tmp/seed-out/$pid"
+out="${SEED_OUT_BASE:-/tmp/seed-out}/$pid"; round="${SEED_ROUND:-8}"
 for n in $(seq 1 "$count"); do
   [ -f "$out/change$n.diff" ] || { echo "$pid change$n: missing"; continue; }
   needs="$(grep -m1 -E "^\W*NEEDS$n\W" "$out/notes.md" 2>/dev/null | sed -E "s/^\W*NEEDS$n\W*//" | cut -c1-400)"
-  [ -n "$needs" ] || needs="round 8: see notes.md, change $n"
+  [ -n "$needs" ] || needs="see notes.md, change $n"
   store=$((first + n - 1))
   echo "== $pid change$n -> store $store: $needs"
-  /verif/tools/ingest_seed.sh "$pid" "$n" "round 8: $needs" "$out" "$store" 2>&1 | tail -3
+  /verif/tools/ingest_seed.sh "$pid" "$n" "round $round: $needs" "$out" "$store" 2>&1 | tail -3
 done
-git -C /repo worktree remove --force "/tmp/seed-$pid" && echo "worktree /tmp/seed-$pid removed"
+git -C /repo worktree remove --force "${SEED_WT_BASE:-/tmp/seed}-$pid" && echo "worktree ${SEED_WT_BASE:-/tmp/seed}-$pid removed"
